@@ -72,6 +72,11 @@ class ModbusAsciiFramer(ModbusFramer):
         end = self._buffer.find(self._end)
         if end != -1:
             self._header['len'] = end
+            body = self._buffer[start + 1:end]
+            if len(body) % 2 or body.strip(b'0123456789ABCDEFabcdef'):
+                # only pairs of hex digits make a frame (int() and
+                # friends would also take blanks, signs or underscores)
+                return False
             try:
                 self._header['uid'] = int(self._buffer[1:3], 16)
                 self._header['lrc'] = int(self._buffer[end - 2:end], 16)
